@@ -42,6 +42,21 @@ def sh(cmd, cwd=None, timeout=None, env=None, input=None):
         return 124, out + "\n[timeout]"
 
 
+def run_queue_capacity(default=131072):
+    """INITIAL_QUEUE_SIZE of the tree under check (src/myth_config.h): the fixed length of every worker's run queue.
+    No property promises a capacity (C02 quantifies "up to the capacity"), so generators that need many runnable
+    threads on one worker scale themselves by it instead of assuming the pinned value."""
+    try:
+        t = open(os.path.join(REPO, "src", "myth_config.h"), errors="replace").read()
+        m = re.search(r"#define\s+INITIAL_QUEUE_SIZE\s+(.+)", t)
+        e = m.group(1).split("//")[0].split("/*")[0].strip()
+        if re.fullmatch(r"[0-9()*+<\s]+", e):
+            return int(eval(e))
+    except Exception:
+        pass
+    return default
+
+
 def sha(*parts):
     h = hashlib.sha256()
     for p in parts:
@@ -487,8 +502,17 @@ class Ctx:
         self.prop, self.tier, self.seed = prop, tier, seed
         self.t0 = time.time()
         self.rng = Splitmix(seed)
-        self.dir = os.path.join(BUILD, prop)
+        # runs against a scratch tree (VERIF_REPO) get a directory of their own, so that a run against /repo and runs
+        # against mutated copies can go on at the same time without clobbering each other's traces
+        self.dir = os.path.join(BUILD, prop if REPO == "/repo" else "%s@%s" % (prop, sha(REPO)[:8]))
         os.makedirs(self.dir, exist_ok=True)
+        try:      # directories of runs against scratch trees that are no longer in use
+            for d in os.listdir(BUILD):
+                q = os.path.join(BUILD, d)
+                if "@" in d and os.path.isdir(q) and time.time() - os.path.getmtime(q) > 3 * 3600:
+                    shutil.rmtree(q, ignore_errors=True)
+        except OSError:
+            pass
         self.violations = []          # list of dicts {kind, what, replay, found}
         self.known_hit = []
         self.cov = {"obligations": 0, "discharged": 0, "checker_cmd": "", "trusted_base": [],
